@@ -72,7 +72,7 @@ def run_traces(binp, work, tier, seed, sub, replay=None):
     d = os.path.join(work, "apa_" + sub)
     os.makedirs(d, exist_ok=True)
     res = {}
-    with cf.ThreadPoolExecutor(max_workers=int(os.environ.get("VERIF_APALACHE_JOBS", "6"))) as ex:
+    with cf.ThreadPoolExecutor(max_workers=int(os.environ.get("VERIF_APALACHE_JOBS", "8"))) as ex:
         futs = {ex.submit(judge, d, tr): tr for tr in j["traces"]}
         for f in cf.as_completed(futs):
             res[futs[f]["id"]] = f.result()
@@ -174,8 +174,11 @@ def _run(prop, tier, seed, replay, work, t0):
 CHECKS = {"C19": dict(runner=runner)}
 MANIFEST = {"C19": dict(
     engine="tlc-apalache-trace", category="model_checking", design_ref="DESIGN.md section 7 C19",
-    text="TLC model-checks that the reference token bucket of TokenBucket.tla satisfies the admitted-bytes upper bound and the backlogged lower bound for all arrival sequences of a small "
-         "configuration; traces of the natively compiled bpf/qos_ratelimit.c (policy set through the real qos.Manager into real kernel maps; scripted kernel clock incl. values near 2^63/2^64, "
-         "rates 1 kbit/s-100 Gbit/s, bursts 1 B-4 GB, fine/coarse backlog, burst trains, day-long idle gaps) are validated against the same inequalities by Apalache because the values need 64+ bits.",
+    text="TLC model-checks that the exact reference token bucket of TokenBucket.tla satisfies the admitted-bytes upper bound and the backlogged lower bound: over recorded histories of bounded length, "
+         "and - potentials formulation, finite state without the history - for arrival sequences of every length (non-integer rates); both formulations are checked to agree; the lower bound is claimed for "
+         "burst >= 2*maxpkt only and TLC's counterexample for a smaller bucket is part of the run. Traces of the natively compiled bpf/qos_ratelimit.c (policy set through the real qos.Manager into real "
+         "kernel maps, incl. plan changes of one subscriber; scripted kernel clock incl. values near 2^63/2^64, rates 0-100 Gbit/s, bursts 1 B-4 GB, fine/coarse backlog, burst trains, day-long idle gaps, "
+         "sub-byte-time gaps, and 4 000/40 000-packet nanosecond-grained drift traces at rates whose byte time is not a whole number of ns) are validated against the same inequalities by Apalache because "
+         "the values need 64+ bits.",
     technique="TLA+ reference bucket checked by TLC + Apalache trace validation of the native C token bucket against the contract inequalities",
-    note="trusted: cshim runtime, frame builder, Apalache/Z3; traces are short (40-60 arrivals), so sub-nanosecond rounding drift that needs very long windows is not observable")}
+    note="trusted: cshim runtime, frame builder, Apalache/Z3; of traces longer than 60 arrivals Apalache is shown the ~50 events whose windows from the first arrivals look tightest (prefix sums over the whole trace)")}
